@@ -90,7 +90,7 @@ func main() {
 	})
 }
 
-func plan(tier string, seed int64) []run.Batch {
+func planBase(tier string, seed int64) []run.Batch {
 	nw, ns, nst, ops, nfar, farops := 10, 4, 4, 5000, 2, 300
 	if tier == "thorough" {
 		nw, ns, nst, ops, nfar, farops = 128, 12, 32, 62500, 8, 2500
@@ -125,7 +125,7 @@ func plan(tier string, seed int64) []run.Batch {
 	return bs
 }
 
-func child(b run.Batch, r *ev.Result) {
+func childBase(b run.Batch, r *ev.Result) {
 	switch b.Kind {
 	case "wire":
 		wireChild(b, r)
